@@ -43,8 +43,13 @@ use std::{
     fmt::Display,
     hash::Hash,
     ops::Deref,
-    sync::{Arc, RwLock, Weak},
+    sync::{Arc, Weak},
 };
+
+#[cfg(not(gdsl_verif))]
+use std::sync::RwLock;
+#[cfg(gdsl_verif)]
+use crate::verif_hook::RwLock;
 
 enum Transposition {
     Outbound,
